@@ -16,7 +16,7 @@ From RU Require Import Base.Prelude Base.Utf8 Base.Utf8Facts Model.AsciiSet Gen.
   Proofs.C01_EqClasses Proofs.C01_EqAuthSpec Proofs.C01_EqAuthModel Proofs.C01_EqAuth Proofs.C01_EqClasses2
   Proofs.C01_EqRel Proofs.C01_EqRelPath Proofs.C01_EqRelArms Proofs.C01_EqRelBase
   Proofs.C01_EqSpSpec Proofs.C01_EqSpPath Proofs.C01_EqSpModel Proofs.C01_EqSp Proofs.C01_EqSpKnown
-  Proofs.C01_EqAbs Proofs.C01_EqAsm.
+  Proofs.C01_EqAbs Proofs.C01_EqSpBase Proofs.C01_EqAsm.
 
 (* ================= suffixes ================= *)
 Definition suffix_of (s t : list N) : Prop := exists pre, t = pre ++ s.
@@ -311,7 +311,7 @@ Proof.
   { assert (in_class_query_only sb input = true) as ->
       by (unfold in_class_query_only; rewrite Hop, Ecl; cbn [negb andb starts_with_cp]; exact E63).
     rewrite !orb_true_r. reflexivity. }
-  apply orb_true_iff. left. apply orb_intro_r. unfold in_class_relative.
+  apply orb_true_iff. left. apply orb_true_iff. left. apply orb_intro_r. unfold in_class_relative.
   destruct (c =? 47) eqn:E47.
   - apply N.eqb_eq in E47. subst c.
     destruct (starts_with_cp 47 t) eqn:E2.
@@ -342,6 +342,53 @@ Qed.
 
 End BaseCover.
 
+(* ================= a special non-file base with a host, scheme-less reference ================= *)
+Theorem special_base_covers dbg shs b sb input :
+  good_base dbg shs b sb -> sp_base_ok sb = true ->
+  spec_scheme (spec_clean input) = None -> known_c01 (Some b) input = 0 ->
+  in_proved_class3 (Some sb) input = true.
+Proof.
+  intros [R Hok] Hsb Hs Hk.
+  destruct (known_base_noscheme b input Hs Hk) as (_ & Hd & Hp & _ & _).
+  rewrite (related_path dbg shs b sb R) in Hp.
+  destruct (sp_base_ok_facts sb Hsb) as (Hop & Hsp & Hnf & h & Eh).
+  cbn [in_proved_class3].
+  destruct (spec_clean input) as [|c t] eqn:Ecl.
+  { assert (in_class_empty_ref sb input = true) as -> by (unfold in_class_empty_ref; rewrite Hop, Ecl; reflexivity).
+    rewrite !orb_true_r. reflexivity. }
+  destruct (c =? 35) eqn:E35.
+  { assert (in_class_fragment_only input = true) as -> by (unfold in_class_fragment_only; rewrite Ecl; exact E35). reflexivity. }
+  destruct (c =? 63) eqn:E63.
+  { assert (in_class_query_only sb input = true) as ->
+      by (unfold in_class_query_only; rewrite Hop, Ecl; cbn [negb andb starts_with_cp]; exact E63).
+    rewrite !orb_true_r. reflexivity. }
+  apply orb_intro_r. unfold in_class_relative_s.
+  pose proof Hok as Hok0. apply andb_true_iff in Hok0. destruct Hok0 as [Hcan HnsP].
+  destruct (is_sl c) eqn:Esl.
+  - assert (is_path_end c = true) as Hpe by (unfold is_path_end; unfold is_sl in Esl; lia).
+    destruct t as [|c2 T].
+    + apply orb_true_iff. left. apply orb_true_iff. left.
+      unfold in_class_rel_abs_s. rewrite Hsb, Ecl, Esl. reflexivity.
+    + destruct (is_sl c2) eqn:Esl2.
+      * apply orb_intro_r. rewrite Hcan. cbn [andb].
+        unfold in_class_rel_authority_s. rewrite Hop, Hsp, Hnf, Ecl, Esl, Esl2. cbn [negb andb].
+        apply (sp_class_ok_nodrive_from (Some c2) T). exact (hds_suffix [c] None c2 T Hd).
+      * apply orb_true_iff. left. apply orb_true_iff. left.
+        unfold in_class_rel_abs_s. rewrite Hsb, Ecl, Esl, Esl2. cbn [negb andb].
+        change (@nil N) with (upe in_path_set []).
+        apply (spath_ok_s_raw (c2 :: T) c [] []); [exact Hpe | reflexivity | reflexivity|].
+        exact (hds_suffix [] None c (c2 :: T) Hd).
+  - apply orb_true_iff. left. apply orb_intro_r.
+    unfold in_class_rel_path_s. rewrite Hsb, Ecl, Hs, Esl, E63, E35. cbn [negb andb].
+    assert (serialize_path sb = flat_map (fun s => 47 :: s) (Whatwg.path_segments sb)) as EP.
+    { unfold serialize_path, Whatwg.path_segments. unfold has_opaque_path in Hop. destruct (su_path sb); [discriminate Hop | reflexivity]. }
+    rewrite EP in Hp.
+    change (@nil N) with (upe in_path_set []).
+    apply (spath_ok_s_raw (c :: t) 47 [] (removelast (Whatwg.path_segments sb))); [reflexivity | reflexivity | |].
+    + apply nowdl_removelast. exact (nowdl_of_nodrive _ None HnsP Hp).
+    + apply hds_none_some. exact Hd.
+Qed.
+
 (* ================= any base, a reference with a scheme of its own that makes the base irrelevant ================= *)
 Lemma known_base_own_scheme b input sch R :
   spec_scheme (spec_clean input) = Some (sch, R) -> known_c01 (Some b) input = 0 -> known_c01 None input = 0.
@@ -362,7 +409,7 @@ Theorem own_scheme_base_covers sb b input sch R :
 Proof.
   intros Hs Hign Hk. pose proof (known_base_own_scheme b input sch R Hs Hk) as Hk0.
   destruct (known_nobase_scheme input sch R Hs Hk0) as (Hnf & _).
-  cbn [in_proved_class3]. apply orb_intro_r. unfold in_class_abs_base. rewrite Hs.
+  cbn [in_proved_class3]. apply orb_true_iff. left. apply orb_intro_r. unfold in_class_abs_base. rewrite Hs.
   apply andb_true_iff. split; [|exact (nobase_covers input Hk0)].
   unfold base_ignored. rewrite Hnf. cbn [negb andb].
   destruct Hign as [H|H]; rewrite H; [reflexivity | apply orb_true_r].
@@ -411,6 +458,17 @@ Proof.
   exact (own_scheme_base_covers sb b input sch R Hs Hign Hk).
 Qed.
 
+(* a good_base pair with a special non-file scheme and a host, scheme-less reference *)
+Theorem statement_special_base b sb input : usv_list input ->
+  good_base dbg shs b sb -> sp_base_ok sb = true ->
+  spec_scheme (spec_clean input) = None -> known_c01 (Some b) input = 0 ->
+  host_hyp3 hp hpo hd shp shs (Some sb) input ->
+  agree_good dbg shs (parse_url dbg hp hpo hd None (Some b) input) (spec_basic_url_parse shp input (Some sb)).
+Proof.
+  intros Hu Hb Hsb Hs Hk HH. apply (partial_equivalence_good3 dbg hp hpo hd shp shs input (Some b) (Some sb) Hu Hb); [|exact HH].
+  exact (special_base_covers dbg shs b sb input Hb Hsb Hs Hk).
+Qed.
+
 End Statements.
 
 (* the same for the parser model with the host model plugged in against the Standard's parser with the
@@ -445,5 +503,16 @@ Theorem statement_own_scheme_base_model dbg idna : IdnaOK idna -> forall b sb in
     (spec_basic_url_parse (spec_host_parser idna) input (Some sb)).
 Proof.
   intros HI b sb input sch R Hu Hb Hs Hign Hk. apply (statement_own_scheme_base dbg _ _ _ _ _ b sb input sch R); try assumption.
+  apply host_hyp3_model; [exact (idna_out idna HI) | exact Hu].
+Qed.
+
+Theorem statement_special_base_model dbg idna : IdnaOK idna -> forall b sb input,
+  usv_list input -> good_base dbg spec_host_serializer b sb -> sp_base_ok sb = true ->
+  spec_scheme (spec_clean input) = None -> known_c01 (Some b) input = 0 ->
+  agree_good dbg spec_host_serializer
+    (parse_url dbg (host_parse idna) host_parse_opaque host_display None (Some b) input)
+    (spec_basic_url_parse (spec_host_parser idna) input (Some sb)).
+Proof.
+  intros HI b sb input Hu Hb Hsb Hs Hk. apply statement_special_base; try assumption.
   apply host_hyp3_model; [exact (idna_out idna HI) | exact Hu].
 Qed.
